@@ -6,7 +6,7 @@ evaluated by the real vers.Contains at every probe position; TLC judges result =
 import random, json, concurrent.futures as cf
 import vlib, versgen
 
-PYPI_PRE = ["1.0a1", "1.0rc1", "2.0.dev1", "1.1b2", "3.0.0rc1"]
+PYPI_PRE = ["1.0a1", "1.0rc1", "2.0.dev1", "1.1b2", "3.0.0rc1", "1.5c1", "1.0.post1.dev3", "1!1.0.alpha2+b.1"]
 
 def jobs_for(vecs, ch, K, schemes, prepos=()):
     jobs = []
